@@ -183,6 +183,18 @@ func (r *R) WriteChild(path string) error {
 	return ioutil.WriteFile(path, b, 0644)
 }
 
+// MergeBytesNoEval merges a snapshot of a child that died later: evaluations are accounted for by the caller.
+func (r *R) MergeBytesNoEval(b []byte) error {
+	r.mu.Lock()
+	before := r.Evaluations
+	r.mu.Unlock()
+	err := r.MergeBytes(b)
+	r.mu.Lock()
+	r.Evaluations = before
+	r.mu.Unlock()
+	return err
+}
+
 func (r *R) MergeBytes(b []byte) error {
 	var w wire
 	if err := json.Unmarshal(b, &w); err != nil {
